@@ -126,7 +126,6 @@ class _World:
         self.insts = [native(_mk_inst, self.Base), native(_mk_inst, self.Sub)]
         self.inst_cls = [0, 1]
         self.calls = []
-        self.nused = 0  # listener functions are interchangeable: canonical labelling (f <= number used so far)
         w = self
 
         def f0(x):
@@ -276,16 +275,16 @@ class _Shape:
         prof 0 full; 1 no once / exec_once (order + hierarchy); 2 once / exec_once focus (no insert, targets {Sub,
         Sub instance}, two listener functions, no new classes / instances, dispatch on the Sub instance);
         3 like 1 without insert, targets {Base, Sub, Sub instance}, two functions, new instance of the newest class;
-        4 like 3 with targets {Sub, Sub instance}."""
+        4 like 3 with targets {Sub, Sub instance}; 5 like 4 with a single listener function."""
         ops = []
-        nf = min(self.nused + 1, 2 if prof in (2, 3, 4) else 3)
-        tg = [1, 3] if prof in (2, 4) else ([0, 1, 3] if prof == 3 else [0, 1, 2, 3])
+        nf = 1 if prof == 5 else min(self.nused + 1, 2 if prof in (2, 3, 4) else 3)
+        tg = [1, 3] if prof in (2, 4, 5) else ([0, 1, 3] if prof == 3 else [0, 1, 2, 3])
         for t in tg:
             for f in range(nf):
                 if (t, f) in self.registered:
                     continue  # registering the identical triple twice is undocumented: outside
-                for i in ((False,) if prof in (2, 3, 4) else (False, True)):
-                    for o in ((False,) if prof in (1, 3, 4) else (False, True)):
+                for i in ((False,) if prof in (2, 3, 4, 5) else (False, True)):
+                    for o in ((False,) if prof in (1, 3, 4, 5) else (False, True)):
                         ops.append((0, t, f, i, o))
         for t in tg:
             for f in range(nf):
@@ -293,7 +292,7 @@ class _Shape:
         if prof != 2 and self.ncls == 2:
             ops.append((2, 0, 0, False, False))
         if prof != 2 and self.ninst < 4:
-            for c in ([self.ncls - 1] if prof in (3, 4) else range(self.ncls)):
+            for c in ([self.ncls - 1] if prof in (3, 4, 5) else range(self.ncls)):
                 ops.append((3, c, 0, False, False))
         insts = [1] if prof == 2 else list(range(self.ninst))
         for i in insts:
@@ -438,7 +437,7 @@ META = {
                              "(order+hierarchy) no once/exec_once, and (once/exec_once) no insert, targets {Sub, Sub instance}, two functions, no new classes/instances; "
                              "every run ends with a dispatch of both events on every instance and event.contains for every (target, fn)"},
         "thorough": {"history": "<=3 operations over the full alphabet; 4 operations without once/exec_once/insert, two listener functions, targets {Base, Sub, the Sub instance}, "
-                                "new instance of the newest class only; 5 operations likewise with targets {Sub, the Sub instance}"},
+                                "new instance of the newest class only; 5 operations likewise with targets {Sub, the Sub instance} and one listener function"},
     },
     "outside": [
         "thread schedules: concurrent exec_once / first-connect dispatch (the mutex in _CompoundListener._exec_once_impl)",
@@ -478,7 +477,7 @@ def harnesses(tier: str) -> List[Harness]:
     else:
         hs.append(Harness("events_full", h_events3, _slices(1, 0, both) + _slices(2, 0, both) + _slices(3, 0), budget_s=900))
         hs.append(Harness("events_len4", h_events5, _slices(4, 3), budget_s=900))
-        hs.append(Harness("events_len5", h_events5, _slices(5, 4), budget_s=1500))
+        hs.append(Harness("events_len5", h_events5, _slices(5, 5), budget_s=1500))
     return hs
 
 
